@@ -23,6 +23,7 @@ Section BTreeAllocModel.
   Variable rank : elt -> Z.
   Variable dflt : elt.
   Variables L I : nat.
+  Variable H : nat.                 (* ZIX_BTREE_MAX_HEIGHT *)
 
   Inductive anode := ALeaf (id : nat) (vs : list elt) | AInode (id : nat) (vs : list elt) (cs : list anode).
 
@@ -119,9 +120,10 @@ Section BTreeAllocModel.
       end
     end.
 
-  (* zix_btree_grow_up: the new root page, then the right half of the old root; the new root is released again when
+  (* zix_btree_grow_up: height check first (fix 1a03612), then the new root page, then the right half of the old root; the new root is released again when
      the second request is refused *)
   Definition agrow_up (s : ast) (r : anode) : BTreeSpec.status * anode * ast :=
+    if H <=? aheight r then (OVERFLOW, r, s) else          (* refused before any request is made *)
     match alloc Aligned s with
     | (None, s1) => (NO_MEM, r, s1)
     | (Some nid, s1) =>
